@@ -242,6 +242,11 @@ func genHistory(r *rand.Rand, idx int, kind string, nbuild int, crash bool) *his
 	if kind == "database" {
 		add(step{Op: "createdb"})
 	}
+	if kind == "measurement" && idx%2 == 1 {
+		// re-create the name only after the asynchronous physical drop has completed (the
+		// catalogue entry is gone, not merely marked deleted)
+		add(step{Op: "wait-physical-drop", Stmt: d.Mst})
+	}
 	// further writes: to dropped series / re-created names too
 	for i := 0; i < 3+r.IntN(4); i++ {
 		if pts := fresh("autogen", 2+r.IntN(6)); len(pts) > 0 {
@@ -717,6 +722,20 @@ func (rn *runner) run(h *history, worker int) {
 				}
 				pendingNew = nil
 			}
+		case "wait-physical-drop":
+			gone := false
+			for t := 0; t < 120 && !gone; t++ {
+				dirs, _ := filepath.Glob(filepath.Join(s.DataDir(), "data", db, "*", "*", "*", "tssp", st.Stmt+"_*"))
+				gone = len(dirs) == 0
+				if !gone {
+					time.Sleep(250 * time.Millisecond)
+				}
+			}
+			if !gone {
+				c.Inconclusive("physical-drop-not-observed", 1)
+			}
+			time.Sleep(3 * time.Second)
+			c.Count("recreations-after-completed-physical-drop", 1)
 		case "pause":
 			// give a not-yet-indexed series the time to surface (visibility lag) before judging
 			time.Sleep(3 * time.Second)
